@@ -2015,11 +2015,17 @@ impl QueryServer {
         // as soon as possible! The following locks and elements below are SYNCHRONOUS but
         // will never be contented at this point, and will always progress.
         let schema = self.schema.read();
+        #[cfg(feature = "verif-hooks")]
+        crate::verif::pause("qs_read.after_schema");
 
         let cid_max = self.cid_max.read();
         let trim_cid = cid_max.sub_secs(CHANGELOG_MAX_AGE)?;
+        #[cfg(feature = "verif-hooks")]
+        crate::verif::pause("qs_read.after_cid");
 
         let be_txn = self.be.read()?;
+        #[cfg(feature = "verif-hooks")]
+        crate::verif::pause("qs_read.after_be");
 
         Ok(QueryServerReadTransaction {
             be_txn,
@@ -3038,10 +3044,14 @@ impl<'a> QueryServerWriteTransaction<'a> {
             changed = ?changed_flags.iter_names().collect::<Vec<_>>(),
         );
 
+        #[cfg(feature = "verif-hooks")]
+        crate::verif::pause("qs_commit.start");
         // Write the cid to the db. If this fails, we can't assume replication
         // will be stable, so return if it fails.
         be_txn.set_db_ts_max(cid.ts)?;
         cid.commit();
+        #[cfg(feature = "verif-hooks")]
+        crate::verif::pause("qs_commit.after_cid");
 
         // We don't care if this passes/fails, committing this is fine.
         if resolve_filter_cache_clear {
